@@ -39,13 +39,14 @@ func configsFor(tier string) []buildConfig {
 
 func main() {
 	var (
-		propFlag = flag.String("prop", "", "property id(s), comma separated, or 'all'")
-		tier     = flag.String("tier", "quick", "quick|thorough")
-		repo     = flag.String("repo", "/repo", "repository root")
-		verif    = flag.String("verif", "/verif", "verif root (evidence, known-findings)")
-		dump     = flag.String("dump", "", "debug: dump a fact table (reach, panicsites, ...)")
-		noEv     = flag.Bool("no-evidence", false, "do not write evidence/replay files (used by self-test)")
-		quiet    = flag.Bool("q", false, "only print VIOLATION / KNOWN-FINDING lines")
+		propFlag    = flag.String("prop", "", "property id(s), comma separated, or 'all'")
+		tier        = flag.String("tier", "quick", "quick|thorough")
+		repo        = flag.String("repo", "/repo", "repository root")
+		verif       = flag.String("verif", "/verif", "verif root (evidence, known-findings)")
+		dump        = flag.String("dump", "", "debug: dump a fact table (reach, panicsites, ...)")
+		noEv        = flag.Bool("no-evidence", false, "do not write evidence/replay files (used by self-test)")
+		quiet       = flag.Bool("q", false, "only print VIOLATION / KNOWN-FINDING lines")
+		variantFlag = flag.String("variant", "", "debug: run the named self-test variant (or 'all') and print the checker output")
 	)
 	flag.Parse()
 	seed := 0
@@ -62,6 +63,9 @@ func main() {
 		}
 	}()
 
+	if *variantFlag != "" {
+		os.Exit(runVariantCLI(*repo, *verif, *variantFlag, *propFlag))
+	}
 	if *dump != "" {
 		m, err := LoadModel(*repo, nil, nil, "default")
 		if err != nil {
